@@ -108,7 +108,7 @@ fn is_tagged_arid(it: &Option<Item>, tag: u64) -> bool {
 
 pub fn run(ctx: &mut Ctx) {
     bc_envelope::register_tags();
-    let total = ctx.n(80_000, 1_500_000);
+    let total = ctx.n(80_000, 6_000_000);
     let body_kv = known_values::BODY.value();
     let note_kv = known_values::NOTE.value();
     let date_kv = known_values::DATE.value();
